@@ -79,6 +79,20 @@ def run(F, rep):
             n += 1
             rep.ob("C16-PACK", o["instance"], o["ok"], detail=o["detail"], site=o["site"], how=o["how"], key=o["key"].replace(o["rule"], "C16-PACK/" + o["rule"][4:]))
     rep.floor("C16-PACK", n, 10, "tuple-packing clauses shared with C12")
+    # (LOAD) a sample's records come from the lazily loaded contig-name batches: every accessor loads every batch, in
+    # order, into a loader that places a batch at a cumulative cursor - a reader that loads only "its" batch returns a listed
+    # sample with no records and exit 0 (shared with C08-H2/H6 and C03-BATCH)
+    from rules import c08
+    sub = type(rep)(rep.pid, rep.tier)
+    sub.cfg = getattr(rep, "cfg", "dev")
+    c08.run(F, sub)
+    c03.cursor_rule(F, sub, "C03-BATCH")
+    n = 0
+    for o in sub.obligations:
+        if o["rule"] in ("C08-H2", "C08-H6", "C03-BATCH"):
+            n += 1
+            rep.ob("C16-LOAD", o["instance"], o["ok"], detail=o["detail"], site=o["site"], how=o["how"], key=o["key"].replace(o["rule"], "C16-LOAD/" + o["rule"][4:]))
+    rep.floor("C16-LOAD", n, 9, "lazy metadata loading clauses shared with C08 and C03")
 
 
 def eof_rules(F, rep):
